@@ -70,6 +70,9 @@ def chrom_parent(it, seq, seq_id="chr1", alphabet="NT_EXTENDED_GAPPED"):
     return it.call_func(f, [seq], {"alphabet": it.enum("Alphabet")[alphabet], "seq_id": seq_id}, None, 0)
 
 
+_IUPAC_RC = str.maketrans("ACGTURYSWKMBVDHNacgturyswkmbvdhn-", "TGCAAYRSWMKVBHDNtgcaayrswmkvbhdn-")
+
+
 def chunk_parent(it, genome, start, end, seq_id="chr1", alphabet="NT_EXTENDED_GAPPED", strand="PLUS"):
     """the chunk parent exactly as io.parser.seq_chunk_to_parent builds it for genome[start:end] (interpreted); a chunk
     on the minus strand carries the reverse complement of that stretch"""
@@ -77,7 +80,7 @@ def chunk_parent(it, genome, start, end, seq_id="chr1", alphabet="NT_EXTENDED_GA
     data = genome[start:end]
     kw = {"alphabet": it.enum("Alphabet")[alphabet]}
     if strand != "PLUS":
-        data = data[::-1].translate(str.maketrans("ACGTacgt", "TGCAtgca"))
+        data = data[::-1].translate(_IUPAC_RC)
         kw["strand"] = it.enum("Strand")[strand]
     return it.call_func(f, [data, seq_id, start, end], kw, None, 0)
 
